@@ -259,7 +259,18 @@ func VH_C01_update_replaces_keys() {
 		s := cl.SnapshotForClientIP(netip.Addr{})
 		cl.MarkUsedByClientIP(s[0], remoteIP(&verifStreamConn{remote: &net.TCPAddr{IP: net.IPv4(203, 0, 113, 5), Port: 1}}))
 	}
+	var stale []*list.Element
+	markStale := verifFlag("connection-spans-the-reload")
+	if markStale {
+		// a connection took its snapshot before the reload ...
+		stale = cl.SnapshotForClientIP(netip.Addr{})
+	}
 	cl.Update(mk([]string{"user-0", "user-1"}, neu))
+	if markStale {
+		// ... and finishes authenticating (marks its key used) after it
+		cl.MarkUsedByClientIP(stale[0], remoteIP(&verifStreamConn{remote: &net.TCPAddr{IP: net.IPv4(203, 0, 113, 5), Port: 1}}))
+		verifAssert("C01.update.snapshot-is-the-new-list", len(cl.SnapshotForClientIP(netip.Addr{})) == 2)
+	}
 	nth := 0
 	try := func(k verifKeySpec) (*CipherEntry, error) {
 		conn := &verifStreamConn{name: "client", remote: &net.TCPAddr{IP: net.IPv4(203, 0, 113, 5), Port: 50000}}
@@ -283,7 +294,6 @@ func VH_C01_update_replaces_keys() {
 	e, err = try(neu[1])
 	verifAssert("C01.update.kept-key-authenticates", err == nil && e != nil && e.ID == "user-1")
 }
-
 
 // the same for datagrams: after the key list is replaced, a datagram is accepted only under a
 // key of the new list
@@ -320,4 +330,26 @@ func VH_C03_update_replaces_keys() {
 	}
 	id, err = try(neu[1])
 	verifAssert("C03.update.kept-key-accepted", err == nil && id == "user-1")
+}
+
+// the declared length of the first chunk is any value a conforming client can send (0..0x3FFF):
+// the stream authenticates whatever that length is
+func VH_C01_any_first_length() {
+	cl, specs, _ := verifMakeList(1, 1, false)
+	key := verifKey(specs[0].cipher, verifSecrets[specs[0].secret])
+	salt := make([]byte, key.SaltSize())
+	verifFixedSaltGen{3}.GetSalt(salt)
+	aead, err := key.NewAEAD(salt)
+	verifAssert("C01.first-length.aead", err == nil)
+	l := verifU16("declared-length")
+	verifAssume(l <= 0x3FFF)
+	block := aead.Seal(nil, make([]byte, aead.NonceSize()), []byte{byte(l >> 8), byte(l)}, nil)
+	stream := append(append([]byte{}, salt...), block...)
+	stream = append(stream, verifBytes("rest", 24)...)
+	conn := &verifStreamConn{name: "client", remote: &net.TCPAddr{IP: net.IPv4(203, 0, 113, 5), Port: 50000}}
+	conn.reads = []verifSRead{{data: stream}}
+	e, _, _, _, ferr := findAccessKey(conn, remoteIP(conn), cl, noopLogger())
+	verifAssert("C01.first-length.authenticated-whatever-the-length", ferr == nil && e != nil && e.ID == "id-0")
+	verifReach("C01.first-length.maximum", l == 0x3FFF)
+	verifReach("C01.first-length.zero", l == 0)
 }
